@@ -201,6 +201,18 @@ fn handle_on_connection(
     // RST trumps all other processing. Tear the connection down and
     // wake every parked task with ConnectionReset.
     if s.flags.rst {
+        // A child still in SynReceived was never handed to the application:
+        // nobody will ever close it, so drop it (and its binding) right here.
+        let orphan = k
+            .lookup(fd)
+            .ok()
+            .and_then(|st| st.tcb.as_ref())
+            .map(|t| t.state == TcpState::SynReceived)
+            .unwrap_or(false);
+        if orphan {
+            k.sockets.remove(fd);
+            return;
+        }
         abort_connection(k, fd);
         return;
     }
@@ -1172,7 +1184,17 @@ pub(super) fn check_retx(k: &mut Kernel) {
         emit_handshake(k, fd);
     }
     for fd in abort {
-        abort_timed_out(k, fd);
+        let orphan = k
+            .lookup(fd)
+            .ok()
+            .and_then(|st| st.tcb.as_ref())
+            .map(|t| t.state == TcpState::SynReceived)
+            .unwrap_or(false);
+        if orphan {
+            k.sockets.remove(fd);
+        } else {
+            abort_timed_out(k, fd);
+        }
     }
 }
 
